@@ -88,6 +88,7 @@ func (txMap *txByHashMap) forEach(function ForEachTransaction) {
 func (txMap *txByHashMap) clear() {
 	txMap.backingMap.Clear()
 	txMap.counter.Set(0)
+	txMap.numBytes.Set(0)
 }
 
 func (txMap *txByHashMap) keys() [][]byte {
